@@ -26,6 +26,7 @@ SHARD_TIMEOUT = {"quick": 280, "thorough": 1700}
 SCRIPTS = [[], ["config"], ["upload"], ["search"], ["config", "upload"], ["upload", "search"], ["config", "search"]]
 POLICIES = ["immediate", "lag1", "end", "one-late"]
 SETTLE = 0.004
+WORKERS_PER_CORE = 2   # the shards spend most of their time in settle sleeps
 
 
 def plan(tier, seed):
@@ -43,6 +44,16 @@ def plan(tier, seed):
             for part in range(4):
                 specs.append({"name": f"three-exh-{ti}-{part}", "kind": "three_exh", "scripts": tr, "part": part,
                               "parts": 4, "every": every, "budget_s": 150})
+    # a connection on ANOTHER service id closes at every possible point of the schedule while its cleanup delay is
+    # held back (released one step late, or only at the end): the server's registry lock is global, so that cleanup
+    # stalls admissions of the service under test at exactly the moments the enumeration places it
+    BY = [((["config", "upload"], []), 1), ((["config", "upload"], ["search"]), 1), ((["config"], ["upload"]), 1),
+          (([], [], ["config"]), 1), (([], ["search"], ["upload"]), 3 if tier == "quick" else 1)]
+    for bi, (tr, every) in enumerate(BY):
+        parts = 4
+        for part in range(parts):
+            specs.append({"name": f"other-service-exh-{bi}-{part}", "kind": "by_exh", "scripts": [list(x) for x in tr],
+                          "part": part, "parts": parts, "every": every, "budget_s": 200 if tier == "quick" else 1200})
     for k in range(4 if tier == "quick" else 16):
         specs.append({"name": f"three-{k}", "kind": "three", "index": k, "of": 4 if tier == "quick" else 16,
                       "walks": 60 if tier == "quick" else 1500, "exhaustive1": tier == "thorough",
@@ -420,6 +431,19 @@ async def amain(spec, acc, ctx):
             acc.add("two_conn_script_pairs_done", len(spec["pairs"]))
         else:
             acc.count("enumeration_incomplete")
+    elif spec["kind"] == "by_exh":
+        scripts = spec["scripts"]
+        orders = interleavings([len(x) + 2 for x in scripts])[spec["part"]::spec["parts"]][::spec.get("every", 1)]
+        n_runs = 0
+        for order in orders:
+            for k in range(1, len(order)):
+                for pol in (("one-late", "end") if len(scripts) == 2 or ctx.tier != "quick" else ("one-late",)):
+                    if stop():
+                        acc.count("enumeration_incomplete")
+                        break
+                    await retry_on_timeout(acc, lambda: sch.run(scripts, order, pol, f"close@{k}"))
+                    n_runs += 1
+        acc.count("other_service_close_points_enumerated", n_runs)
     elif spec["kind"] == "three_exh":
         scripts = spec["scripts"]
         orders = interleavings([len(x) + 2 for x in scripts])[spec["part"]::spec["parts"]][::spec.get("every", 1)]
@@ -518,6 +542,7 @@ def finish(m, tier, seed):
         "schedules_with_a_served_connection_on_another_service": {
             "held_to_the_end": c.get("bystander.hold", 0), "closed_mid_schedule": c.get("bystander.close", 0),
             "newcomer_to_the_other_service_kept_waiting": c.get("bystander_waiter_probes", 0)},
+        "other_service_close_points_enumerated": c.get("other_service_close_points_enumerated", 0),
         "three_connection_walks": c.get("three_conn_walks", 0),
         "three_connection_interleavings_enumerated": c.get("three_conn_exhaustive_interleavings", 0),
     }
